@@ -2,7 +2,9 @@ package drivers
 
 import (
 	"encoding/json"
+	"fmt"
 	"math/rand"
+	"strings"
 
 	"verifharness/abs"
 
@@ -43,7 +45,8 @@ type findLine struct {
 
 // 279 = Failed-AVP, a group of the BASE dictionary (its name resolves through the base, its members' names
 // through the message's application)
-var codeNames = map[int]string{9101: "VV-Unsigned32", 9001: "V-Unsigned32", 9010: "V-OctetString", 9018: "V-Grouped", 9050: "V-Grouped2", 9008: "V-Time", 279: "Failed-AVP"}
+// 9301 = "Class" as the message's application defines it (the base application defines Class as code 25)
+var codeNames = map[int]string{9301: "Class", 9101: "VV-Unsigned32", 9001: "V-Unsigned32", 9010: "V-OctetString", 9018: "V-Grouped", 9050: "V-Grouped2", 9008: "V-Time", 279: "Failed-AVP"}
 
 func wireCode(code, shift int) uint32 {
 	if code < 9000 { // base dictionary codes are the same under every verification dictionary
@@ -78,7 +81,7 @@ func buildForest(ns []treeNode, prefix []int, pos map[*diam.AVP][]int, shift int
 			}
 		} else if n.Code == 9101 { // the vendor-specific twin of 9001
 			a = diam.NewAVP(wireCode(n.Code, shift), 0xc0, abs.VVendor, datatype.Unsigned32(7))
-		} else if n.Code == 9010 {
+		} else if n.Code == 9010 || n.Code == 9301 {
 			a = mk(wireCode(n.Code, shift), datatype.OctetString("x"))
 		} else {
 			a = mk(wireCode(n.Code, shift), datatype.Unsigned32(7))
@@ -97,6 +100,18 @@ func substCode(ns []treeNode, from, to int) []treeNode {
 			out[i].Code = to
 		}
 		out[i].Kids = substCode(n.Kids, from, to)
+	}
+	return out
+}
+
+func substGroupCode(ns []treeNode, from, to int) []treeNode {
+	out := make([]treeNode, len(ns))
+	for i, n := range ns {
+		out[i] = n
+		if n.Code == from && n.Grouped {
+			out[i].Code = to
+		}
+		out[i].Kids = substGroupCode(n.Kids, from, to)
 	}
 	return out
 }
@@ -125,6 +140,18 @@ func runFind(id int, c *findCase, dp *dict.Parser, shift int) findLine {
 		u32 = 9101
 		c = &findCase{Tree: substCode(c.Tree, 9001, 9101)}
 	}
+	oct := 9010
+	if id%7 == 5 {
+		// the OctetString leaf is the application's own "Class" (a name the base application gives to another code)
+		oct = 9301
+		c = &findCase{Tree: substCode(c.Tree, 9010, 9301)}
+	}
+	if id%7 == 3 {
+		// the second group travels under a code the dictionary gives to a non-grouped AVP (hand-built, or the
+		// dictionary types that code differently for another vendor): searches follow the data, not the dictionary
+		c = &findCase{Tree: substGroupCode(c.Tree, g2, 9010)}
+		g2 = 9010
+	}
 	style := []string{"complete", "late", "literal"}[(id/3)%3]
 	l := findLine{Ev: "find", ID: id, Tree: c.Tree, Q: []findQuery{}, Style: style}
 	pos := map[*diam.AVP][]int{}
@@ -149,7 +176,7 @@ func runFind(id int, c *findCase, dp *dict.Parser, shift int) findLine {
 		}
 		return wireCode(code, shift)
 	}
-	codes := []int{u32, 9010, 9018, g2, 9008}
+	codes := []int{u32, oct, 9018, g2, 9008}
 	dv := func(code int) int {
 		if code == 9101 {
 			return abs.VVendor
@@ -208,7 +235,7 @@ func runFind(id int, c *findCase, dp *dict.Parser, shift int) findLine {
 			l.Q = append(l.Q, q2)
 		}
 	}
-	pc := []int{u32, 9010, 9018, g2}
+	pc := []int{u32, oct, 9018, g2}
 	var paths [][]int
 	for _, a := range pc {
 		paths = append(paths, []int{a})
@@ -219,7 +246,7 @@ func runFind(id int, c *findCase, dp *dict.Parser, shift int) findLine {
 			}
 		}
 	}
-	paths = append(paths, []int{9008}, []int{9018, 9008}, []int{9008, u32}, []int{9018, g2, 9018, 9010})
+	paths = append(paths, []int{9008}, []int{9018, 9008}, []int{9008, u32}, []int{9018, g2, 9018, oct})
 	for k, p := range paths {
 		q := findQuery{Mode: "path", Codes: p, ByName: k%2 == 1, Res: [][]int{}, QV: -1}
 		q.Perr = safely(func() {
@@ -276,6 +303,12 @@ func Find(a Args) error {
 	vp2, err := abs.NewVParserShift(a.Repo, 300)
 	if err != nil {
 		return err
+	}
+	for k, p := range []*dict.Parser{vp, vp2} {
+		x := fmt.Sprintf(`<?xml version="1.0" encoding="UTF-8"?><diameter><application id="%d" type="auth" name="Verif"><avp name="Class" code="%d" must="M" may="P" must-not="V" may-encrypt="-"><data type="OctetString"/></avp></application></diameter>`, abs.VApp, 9301+300*k)
+		if err := p.Load(strings.NewReader(x)); err != nil {
+			return err
+		}
 	}
 	id := 0
 	if a.Cases != "" {
